@@ -9,7 +9,8 @@ abbrev Bytes := List UInt8
 
 namespace Bytes
 
-def ofString (s : String) : Bytes := s.toUTF8.toList
+/-- UTF-8 bytes of a string constant (written so that the kernel can evaluate it on literals) -/
+def ofString (s : String) : Bytes := s.toUTF8.data.toList
 
 /-- Printable rendering for diagnostics only (never compared). -/
 def toStringLossy (b : Bytes) : String :=
